@@ -46,11 +46,10 @@ def extract(ctx):
     sliced.append('%s:%d suspend_point_type::recall_owner' % (SC, s.line))
     t = rw.sub(s.text, r'void recall_owner\(\)', 'void sp_recall_owner(struct sp* self)', 1, 1, name='sig')
     t = rw.sub(t, r'm_stack_state\.load\(std::memory_order_relaxed\)', 'PLAIN_READ(self->m_stack_state)', 1, 1, name='assert-read')
-    t = rw.sub(t, r'm_stack_state\.store\(stack_state::notified, std::memory_order_relaxed\);', 'ATOMIC_STORE(self->m_stack_state, notified);', 1, 1, name='atomic-store')
-    t = rw.sub(t, r'm_is_owner_recalled\.store\(true, std::memory_order_release\);', 'ATOMIC_STORE(self->m_is_owner_recalled, true);', 1, 1, name='atomic-store')
+    t = rw.sub(t, r'(?<![\w.>])m_stack_state\.store\(stack_state::(\w+), std::memory_order_\w+\);', r'REC_STORE_STATE(self, \1);', 0, None, name='atomic-store (named by field)')
+    t = rw.sub(t, r'(?<![\w.>])m_is_owner_recalled\.store\((\w+), std::memory_order_\w+\);', r'REC_STORE_FLAG(self, \1);', 0, None, name='atomic-store (named by field)')
     t = rw.sub(t, r'stack_state::', '', 1, name='enum-class')
     t = rw.asserts(t, 1)
-    t = rw.number_sites(t, 'rec', by_kind=True)
     out.append(t)
     s = slice_block(TK, r'void resume\(suspend_point_type\* sp\)')
     sliced.append('%s:%d r1::resume' % (TK, s.line))
@@ -58,14 +57,14 @@ def extract(ctx):
     t = rw.sub(t, r'void resume\(suspend_point_type\* sp\)', 'void r1_resume(struct sp* sp)', 1, 1, name='sig')
     t = rw.sub(t, r'assert_pointers_valid\([^;]*\);', 'RG_NOP();', 1, 1, name='debug check -> RG_NOP')
     t = rw.sub(t, r'task_dispatcher& task_disp = sp->m_resume_task\.m_target;', 'RG_NOP();', 1, 1, name='local alias dropped')
-    t = rw.sub(t, r'sp->try_notify_resume\(\)', 'sp_try_notify_resume(sp)', 1, 1, name='method')
+    t = rw.sub(t, r'sp->try_notify_resume\(\)', 'sp_try_notify_resume(sp)', 0, None, name='method')
     t = rw.sub(t, r'arena& a = \*sp->m_arena;', 'RG_NOP();', 1, 1, name='local alias dropped')
-    t = rw.sub(t, r'a\.my_references \+= arena::ref_worker;', 'STUB_arena_ref();', 1, 1, name='callee stub')
-    t = rw.sub(t, r'task_disp\.m_properties\.critical_task_allowed', 'STUB_target_critical_allowed(sp)', 1, 1, name='callee stub')
-    t = rw.sub(t, r'a\.my_resume_task_stream\.push\(&sp->m_resume_task, random_lane_selector\(sp->m_random\)\);', 'STUB_push_resume_task(sp, 0);', 1, 1, name='callee stub (counts pushes)')
-    t = rw.sub(t, r'a\.my_critical_task_stream\.push\(&sp->m_resume_task, random_lane_selector\(sp->m_random\)\);', 'STUB_push_resume_task(sp, 1);', 1, 1, name='callee stub (counts pushes)')
-    t = rw.sub(t, r'a\.advertise_new_work<arena::wakeup>\(\);', 'STUB_advertise();', 1, 1, name='callee stub')
-    t = rw.sub(t, r'a\.on_thread_leaving\(arena::ref_worker\);', 'STUB_arena_unref();', 1, 1, name='callee stub')
+    t = rw.sub(t, r'a\.my_references \+= arena::ref_worker;', 'STUB_arena_ref();', 0, None, name='callee stub')
+    t = rw.sub(t, r'task_disp\.m_properties\.critical_task_allowed', 'STUB_target_critical_allowed(sp)', 0, None, name='callee stub')
+    t = rw.sub(t, r'a\.my_resume_task_stream\.push\(&sp->m_resume_task, random_lane_selector\(sp->m_random\)\);', 'STUB_push_resume_task(sp, 0);', 0, None, name='callee stub (counts pushes)')
+    t = rw.sub(t, r'a\.my_critical_task_stream\.push\(&sp->m_resume_task, random_lane_selector\(sp->m_random\)\);', 'STUB_push_resume_task(sp, 1);', 0, None, name='callee stub (counts pushes)')
+    t = rw.sub(t, r'a\.advertise_new_work<arena::wakeup>\(\);', 'STUB_advertise();', 0, None, name='callee stub')
+    t = rw.sub(t, r'a\.on_thread_leaving\(arena::ref_worker\);', 'STUB_arena_unref();', 0, None, name='callee stub')
     out.append(t)
     common.write(ctx, 'sp.inc', '\n'.join(out) + '\n')
     fired['suspend_point'] = rw.fired
@@ -96,6 +95,7 @@ def extract_switch(ctx, sliced, fired):
     t = rw.sub(t, r'(?s)auto is_our_suspend_point = \[sp\] \(market_context ctx\) \{.*?\};', 'RG_NOP();', 0, None, name='lambda (predicate selecting the waiters of this suspend point) -> argument of the stub below')
     t = rw.sub(t, r'td->my_arena->get_waiting_threads_monitor\(\)\.notify\(is_our_suspend_point\);', 'STUB_notify_waiters_of(td, sp);', 0, None, name='callee stub')
     t = rw.sub(t, r'td->clear_post_resume_action\(\);', 'td_clear_post_resume_action(td);', 0, None, name='method')
+    t = rw.sub(t, r'(?<![\w.>])(m_properties|m_execute_data_ext|m_stealing_threshold|m_suspend_point)\b', r'self->\1', 0, None, name='field')
     t = rw.asserts(t, 0)
     t = rw.std(t)
     out.append(t)
@@ -146,6 +146,7 @@ def extract_switch(ctx, sliced, fired):
     t = rw.sub(t, r'\bthis\b', 'self', 0, None, name='this')
     t = rw.sub(t, r'(?<![\w.>])m_suspend_point->m_is_owner_recalled\.store\(false, std::memory_order_relaxed\);', 'self->m_suspend_point->m_is_owner_recalled = false;', 0, None, name='atomic-store (owner-only flag at this point)')
     t = rw.sub(t, r'(?<![\w.>])m_suspend_point\b', 'self->m_suspend_point', 0, None, name='field')
+    t = rw.sub(t, r'(?<![\w.>])(m_properties|m_execute_data_ext|m_stealing_threshold)\b', r'self->\1', 0, None, name='field')
     t = rw.asserts(t, 0)
     t = rw.std(t)
     out.append(t)
@@ -162,6 +163,7 @@ def extract_switch(ctx, sliced, fired):
     t = rw.sub(t, r'm_thread_data->my_inbox\.is_idle_state\(true\)', 'STUB_inbox_is_idle(self)', 1, 1, name='callee stub')
     t = rw.sub(t, r'm_thread_data->my_inbox\.set_is_idle\(false\);', 'STUB_inbox_set_idle_false(self);', 1, 1, name='callee stub')
     t = rw.sub(t, r'(?<![\w.>])m_suspend_point\b', 'self->m_suspend_point', 0, None, name='field')
+    t = rw.sub(t, r'(?<![\w.>])(m_properties|m_execute_data_ext|m_stealing_threshold)\b', r'self->\1', 0, None, name='field')
     t = rw.asserts(t, 0)
     t = rw.std(t)
     out.append(t)
@@ -171,9 +173,451 @@ def extract_switch(ctx, sliced, fired):
     fired['stack_switch'] = rw.fired
 
 
+# ---------------------------------------------------------------------------------------------------------------------------------
+# SUSPEND: the glue between tbb::task::suspend and the stack switch (task.cpp / task_dispatcher.{h,cpp} / co_context.h / thread_data.h)
+# ---------------------------------------------------------------------------------------------------------------------------------
+CO = 'src/tbb/co_context.h'
+TD = 'src/tbb/thread_data.h'
+AH = 'src/tbb/arena.h'
+TCM = 'src/tbb/thread_control_monitor.h'
+WT = 'src/tbb/waiters.h'
+
+
+def nsdmi(rw, block_text, fields, prefix='self->', name='nsdmi'):
+    """default member initialisers `T f{ init };` of the listed fields, in DECLARED order -> `self->f = init;` lines (what a constructor
+    does first for every member its init list does not name)."""
+    found = []
+    for f in fields:
+        m = re.search(r'(?<![\w.>])%s\s*\{\s*([^{};]*?)\s*\}\s*;' % re.escape(f), block_text)
+        if not m:
+            raise ExtractionBreak('%s: member %s has no default member initialiser' % (name, f))
+        found.append((m.start(), f, m.group(1) or '0'))
+    found.sort()
+    rw.fired[name + ':default-member-init->assignment(declared order)'] = len(found)
+    return ''.join('    %s%s = %s;\n' % (prefix, f, v) for _, f, v in found)
+
+
+def ctor_init_list(rw, text, order, name='ctor'):
+    """`C(params) : a(x), b(y, z) {body}` -> (`params`, 'INIT_a(self, x); INIT_b(self, y, z);' in DECLARED order, body without braces)"""
+    mk = cxx2c.mask(text)
+    o = mk.find('(')
+    c = cxx2c.match_close(mk, o, '(', ')')
+    params = text[o + 1:c]
+    b = None
+    i = c + 1
+    depth = 0
+    # body = first '{' at depth 0 that follows ')' or '}' or the parameter list directly
+    while i < len(mk):
+        ch = mk[i]
+        if ch == '(':
+            i = cxx2c.match_close(mk, i, '(', ')')
+        elif ch == '{':
+            k = i - 1
+            while mk[k].isspace():
+                k -= 1
+            if mk[k] in ')}':
+                b = i
+                break
+            i = cxx2c.match_close(mk, i)
+        i += 1
+    if b is None:
+        raise ExtractionBreak('%s: constructor body not found' % name)
+    il = text[c + 1:b].strip()
+    items = []
+    if il:
+        if not il.startswith(':'):
+            raise ExtractionBreak('%s: cannot parse init list %r' % (name, il[:80]))
+        for it in cxx2c.split_args(il[1:]):
+            im = re.match(r'\s*(\w+)\s*[\(\{](.*)[\)\}]\s*$', it, re.S)
+            if not im:
+                raise ExtractionBreak('%s: cannot parse init-list item %r' % (name, it))
+            if im.group(1) not in order:
+                raise ExtractionBreak('%s: init-list member %s not in the declared-order table' % (name, im.group(1)))
+            items.append((order.index(im.group(1)), im.group(1), im.group(2).strip()))
+    items.sort()
+    rw.fired[name + ':init-list->INIT_<member>(self, args) (declared order)'] = len(items)
+    init = ''.join('    INIT_%s(self%s);\n' % (nm, (', ' + a) if a else '') for _, nm, a in items)
+    e = cxx2c.match_close(mk, b)
+    return params, init, text[b + 1:e]
+
+
+def declared_order(block_text, fields, name):
+    pos = []
+    for f in fields:
+        m = re.search(r'(?<![\w.>])%s\s*(?:\{[^{};]*\})?\s*;' % re.escape(f), block_text)
+        if not m:
+            raise ExtractionBreak('%s: member %s not declared' % (name, f))
+        pos.append((m.start(), f))
+    pos.sort()
+    return [f for _, f in pos]
+
+
+def extract_suspend(ctx, sliced, fired):
+    rw = Rewriter('suspend_glue')
+    out = []
+
+    def note(s, what):
+        sliced.append('%s:%d %s' % (s.rel, s.line, what))
+
+    # ---- co_context: constructor and resume ------------------------------------------------------------------------------------
+    W = r'class co_context \{'
+    if not re.search(r'enum co_state \{\s*co_invalid,\s*co_suspended,\s*co_executing,\s*co_destroyed\s*\}', load(CO)):
+        raise ExtractionBreak('co_state enum changed')
+    s = slice_block(CO, r'co_context\(std::size_t stack_size, void\* arg\)', within=W, ctor=True)
+    note(s, 'co_context::co_context')
+    params, init, body = ctor_init_list(rw, s.text, ['my_coroutine', 'my_state'], 'co_context')
+    t = 'void co_context_ctor(struct co_context* self, size_t stack_size, void* arg) {\n' + init + body + '}\n'
+    t = rw.sub(t, r'(?<![\w.>])create_coroutine\(my_coroutine, stack_size, arg\);', 'STUB_create_coroutine(&self->my_coroutine, stack_size, arg);', 0, None, name='callee (proved: coroutine.entry_roundtrip)')
+    t = rw.sub(t, r'(?<![\w.>])current_coroutine\(my_coroutine\);', 'STUB_current_coroutine(&self->my_coroutine);', 0, None, name='callee stub')
+    t = rw.asserts(t, 0)
+    t = rw.std(t)
+    out.append(t)
+    s = slice_block(CO, r'void resume\(co_context& target\)', within=W)
+    note(s, 'co_context::resume')
+    t = rw.sub(s.text, r'void resume\(co_context& target\)', 'void co_context_resume(struct co_context* self, struct co_context* target)', 1, 1, name='sig')
+    t = rw.sub(t, r'\btarget\.', 'target->', 0, None, name='ref-param')
+    t = rw.sub(t, r'swap_coroutine\(my_coroutine, target->my_coroutine\);', 'STUB_swap_coroutine(self, target);', 0, None, name='callee stub (swapcontext: returns when somebody switches back)')
+    t = rw.sub(t, r'(?<![\w.>])my_state\b', 'self->my_state', 0, None, name='field')
+    t = rw.asserts(t, 0)
+    t = rw.std(t)
+    out.append(t)
+    # ---- suspend_point_type: default member initialisers + constructor + resume_task constructor + resume ------------------------
+    SPW = r'struct suspend_point_type \{'
+    spblock = slice_block(SC, SPW).text
+    s = slice_block(SC, r'explicit resume_task\(task_dispatcher& target\)', within=SPW, ctor=True)
+    note(s, 'suspend_point_type::resume_task::resume_task')
+    params, init, body = ctor_init_list(rw, s.text, ['m_target'], 'resume_task')
+    t = 'void resume_task_ctor(struct resume_task* self, task_dispatcher* target) {\n' + init + body + '}\n'
+    t = rw.sub(t, r'task_accessor::set_resume_trait\(\*this\);', 'TASK_SET_RESUME_TRAIT(self);', 0, None, name='accessor')
+    out.append(t)
+    s = slice_block(TDH, r'inline suspend_point_type::suspend_point_type\(arena\* a, size_t stack_size, task_dispatcher& task_disp\)', ctor=True)
+    note(s, 'suspend_point_type::suspend_point_type (+ default member initialisers of %s)' % SC)
+    order = declared_order(spblock, ['m_arena', 'm_random', 'm_is_owner_recalled', 'm_is_critical', 'm_co_context', 'm_prev_suspend_point', 'm_stack_state', 'm_resume_task'], 'suspend_point_type')
+    params, init, body = ctor_init_list(rw, s.text, order, 'suspend_point_type')
+    dflt = nsdmi(rw, spblock, ['m_is_owner_recalled', 'm_is_critical', 'm_prev_suspend_point', 'm_stack_state'], name='suspend_point_type')
+    t = 'void suspend_point_type_ctor(suspend_point_type* self, arena* a, size_t stack_size, task_dispatcher* task_disp) {\n' + dflt + init + body + '}\n'
+    t = rw.sub(t, r'stack_state::', '', 1, name='enum-class')
+    t = rw.sub(t, r'INIT_m_random\(self, this\);', 'INIT_m_random(self, self);', 0, None, name='this')
+    t = rw.sub(t, r'INIT_m_co_context\(self, stack_size, &task_disp\);', 'INIT_m_co_context(self, stack_size, task_disp);', 0, None, name='ref-param')
+    t = rw.sub(t, r'assert_pointer_valid\([^;]*\);', 'RG_NOP();', 0, None, name='debug check -> RG_NOP')
+    t = rw.sub(t, r'task_accessor::context\(m_resume_task\) = m_arena->my_default_ctx;', 'TASK_SET_CONTEXT(&self->m_resume_task, self->m_arena->my_default_ctx);', 0, None, name='accessor')
+    t = rw.sub(t, r'task_accessor::isolation\(m_resume_task\) = no_isolation;', 'TASK_SET_ISOLATION(&self->m_resume_task, no_isolation);', 0, None, name='accessor')
+    t = rw.sub(t, r'task_group_context_impl::bind_to\(\*task_accessor::context\(m_resume_task\), task_disp\.m_thread_data\);', 'STUB_bind_to(TASK_CONTEXT(&self->m_resume_task), task_disp->m_thread_data);', 0, None, name='callee stub')
+    t = rw.std(t)
+    out.append(t)
+    s = slice_block(SC, r'void resume\(suspend_point_type\* sp\)', within=SPW)
+    note(s, 'suspend_point_type::resume')
+    t = rw.sub(s.text, r'void resume\(suspend_point_type\* sp\)', 'void sp_resume(suspend_point_type* self, suspend_point_type* sp)', 1, 1, name='sig')
+    t = rw.sub(t, r'm_stack_state\.load\(std::memory_order_relaxed\)', 'ATOMIC_LOAD(self->m_stack_state)', 0, None, name='assert-read')
+    t = rw.sub(t, r'sp->m_prev_suspend_point = this;', 'sp->m_prev_suspend_point = self;', 0, None, name='this')
+    t = rw.sub(t, r'(?<![\w.>])m_co_context\.resume\(sp->m_co_context\);', 'co_context_resume(&self->m_co_context, &sp->m_co_context);', 0, None, name='method')
+    t = rw.sub(t, r'(?<![\w.>])finilize_resume\(\);', 'STUB_sp_finilize_resume(self);', 0, None, name='callee (proved: handshake.leaver)')
+    t = rw.sub(t, r'(?<![\w.>])(m_prev_suspend_point|m_is_owner_recalled|m_co_context)\b', r'self->\1', 0, None, name='field')
+    t = rw.sub(t, r'stack_state::', '', 0, None, name='enum-class')
+    t = rw.asserts(t, 0)
+    t = rw.std(t)
+    out.append(t)
+    # ---- task_dispatcher: constructor + default member initialisers, get_suspend_point, init_suspend_point ----------------------
+    TDW = r'class alignas \(max_nfs_size\) task_dispatcher \{'
+    tdblock = slice_block(SC, TDW).text
+    propblock = slice_block(SC, r'struct properties \{', within=TDW).text
+    s = slice_block(TDH, r'inline task_dispatcher::task_dispatcher\(arena\* a\)', ctor=True)
+    note(s, 'task_dispatcher::task_dispatcher (+ default member initialisers of %s)' % SC)
+    params, init, body = ctor_init_list(rw, s.text, [], 'task_dispatcher')
+    dflt = nsdmi(rw, tdblock, ['m_thread_data', 'm_stealing_threshold', 'm_suspend_point'], name='task_dispatcher')
+    dflt += nsdmi(rw, propblock, ['outermost', 'fifo_tasks_allowed', 'critical_task_allowed'], prefix='self->m_properties.', name='task_dispatcher::properties')
+    t = 'task_dispatcher* task_dispatcher_ctor(task_dispatcher* self, arena* a) {\n' + dflt + init + body + '    return self;\n}\n'
+    t = rw.sub(t, r'(?<![\w.>])m_execute_data_ext\b', 'self->m_execute_data_ext', 0, None, name='field')
+    t = rw.sub(t, r'= this;', '= self;', 0, None, name='this')
+    t = rw.std(t)
+    out.append(t)
+    s = slice_block(TDC, r'void task_dispatcher::init_suspend_point\(arena\* a, std::size_t stack_size\)')
+    note(s, 'task_dispatcher::init_suspend_point')
+    t = rw.sub(s.text, r'void task_dispatcher::init_suspend_point\(arena\* a, std::size_t stack_size\)', 'void td_init_suspend_point(task_dispatcher* self, arena* a, size_t stack_size)', 1, 1, name='sig')
+    t = rw.sub(t, r'new\(cache_aligned_allocate\(sizeof\(suspend_point_type\)\)\)\s*suspend_point_type\(',
+               'NEW_suspend_point_type(STUB_cache_aligned_allocate(sizeof(suspend_point_type)), ', 0, None, name='placement new -> allocation + constructor call')
+    t = rw.sub(t, r', \*this\);', ', self);', 0, None, name='ref-arg')
+    t = rw.sub(t, r', \*((?:\w+->)*\w+)\);', r', \1);', 0, None, name='ref-arg')
+    t = rw.sub(t, r'(?<![\w.>])(m_suspend_point|m_thread_data)\b', r'self->\1', 0, None, name='field')
+    t = rw.asserts(t, 0)
+    t = rw.std(t)
+    out.append(t)
+    s = slice_block(TDC, r'd1::suspend_point task_dispatcher::get_suspend_point\(\)')
+    note(s, 'task_dispatcher::get_suspend_point')
+    t = rw.sub(s.text, r'd1::suspend_point task_dispatcher::get_suspend_point\(\)', 'suspend_point_type* td_get_suspend_point(task_dispatcher* self)', 1, 1, name='sig')
+    t = rw.sub(t, r'assert_pointer_valid\([^;]*\);', 'RG_NOP();', 0, None, name='debug check -> RG_NOP')
+    t = rw.sub(t, r'(?<![\w.>:])init_suspend_point\(', 'td_init_suspend_point(self, ', 0, None, name='method')
+    t = rw.sub(t, r'(?<![\w.>])(m_suspend_point|m_thread_data|m_properties|m_execute_data_ext)\b', r'self->\1', 0, None, name='field')
+    t = rw.std(t)
+    out.append(t)
+    # ---- thread_data::attach/detach_task_dispatcher ---------------------------------------------------------------------------------
+    s = slice_block(TD, r'inline void thread_data::attach_task_dispatcher\(task_dispatcher& task_disp\)')
+    note(s, 'thread_data::attach_task_dispatcher')
+    t = rw.sub(s.text, r'inline void thread_data::attach_task_dispatcher\(task_dispatcher& task_disp\)', 'void thd_attach_task_dispatcher(thread_data* self, task_dispatcher* task_disp)', 1, 1, name='sig')
+    t = rw.sub(t, r'\btask_disp\.', 'task_disp->', 0, None, name='ref-param')
+    t = rw.sub(t, r'= &task_disp;', '= task_disp;', 0, None, name='ref-param')
+    t = rw.sub(t, r'= this;', '= self;', 0, None, name='this')
+    t = rw.sub(t, r'(?<![\w.>])my_task_dispatcher\b', 'self->my_task_dispatcher', 0, None, name='field')
+    t = rw.asserts(t, 0)
+    t = rw.std(t)
+    out.append(t)
+    s = slice_block(TD, r'inline void thread_data::detach_task_dispatcher\(\)')
+    note(s, 'thread_data::detach_task_dispatcher')
+    t = rw.sub(s.text, r'inline void thread_data::detach_task_dispatcher\(\)', 'void thd_detach_task_dispatcher(thread_data* self)', 1, 1, name='sig')
+    t = rw.sub(t, r'== this\b', '== self', 0, None, name='this')
+    t = rw.sub(t, r'(?<![\w.>])my_task_dispatcher\b', 'self->my_task_dispatcher', 0, None, name='field')
+    t = rw.asserts(t, 0)
+    t = rw.std(t)
+    out.append(t)
+    # ---- task.cpp: create_coroutine, internal_suspend, task_dispatcher::suspend, r1::suspend, current_suspend_point ------------------
+    s = slice_block(TK, r'task_dispatcher& create_coroutine\(thread_data& td\)')
+    note(s, 'r1::create_coroutine')
+    t = rw.sub(s.text, r'task_dispatcher& create_coroutine\(thread_data& td\)', 'task_dispatcher* r1_create_coroutine(thread_data* td)', 1, 1, name='sig')
+    t = rw.sub(t, r'\btd\.', 'td->', 1, name='ref-param')
+    t = rw.sub(t, r'td->my_arena->my_co_cache\.pop\(\)', 'STUB_co_cache_pop(td->my_arena)', 0, None, name='callee (proved: cocache.pop)')
+    t = rw.sub(t, r'void\* ptr = cache_aligned_allocate\(sizeof\(task_dispatcher\)\);', 'void* ptr = STUB_cache_aligned_allocate(sizeof(task_dispatcher));', 0, None, name='callee stub (alloc_nofail)')
+    t = rw.sub(t, r'task_disp = new\(ptr\) task_dispatcher\(td->my_arena\);', 'task_disp = task_dispatcher_ctor((task_dispatcher*)ptr, td->my_arena);', 0, None, name='placement new -> constructor call')
+    t = rw.sub(t, r'task_disp->init_suspend_point\(', 'td_init_suspend_point(task_disp, ', 0, None, name='method')
+    t = rw.sub(t, r'td->my_arena->my_threading_control->worker_stack_size\(\)', 'STUB_worker_stack_size(td->my_arena)', 0, None, name='callee stub')
+    t = rw.sub(t, r'td->my_arena->my_references \+= arena::ref_external;', 'ARENA_REF_EXTERNAL(td->my_arena);', 0, None, name='atomic += on the arena reference word -> counter macro')
+    t = rw.sub(t, r'return \*task_disp;', 'return task_disp;', 1, 1, name='ref-return')
+    t = rw.std(t)
+    out.append(t)
+    s = slice_block(TK, r'void task_dispatcher::internal_suspend\(\)')
+    note(s, 'task_dispatcher::internal_suspend')
+    t = rw.sub(s.text, r'void task_dispatcher::internal_suspend\(\)', 'void td_internal_suspend(task_dispatcher* self)', 1, 1, name='sig')
+    t = rw.sub(t, r'task_dispatcher& default_task_disp = slot->default_task_dispatcher\(\);', 'task_dispatcher* default_task_disp = slot->my_default_task_dispatcher;', 1, 1, name='accessor + ref-local')
+    t = rw.sub(t, r'\b(\w+)\.get_suspend_point\(\)', r'td_get_suspend_point(\1)', 0, None, name='method (ref-local)')
+    t = rw.sub(t, r'(?<![\w.>:])get_suspend_point\(\)', 'td_get_suspend_point(self)', 0, None, name='method')
+    t = rw.sub(t, r'((?:\w+\([^()]*\)->)?(?:\w+(?:->|\.))*m_is_owner_recalled)\.load\(std::memory_order_\w+\)', r'ATOMIC_LOAD(\1)', 0, None, name='atomic-load')
+    t = rw.sub(t, r'task_dispatcher& target =', 'task_dispatcher* target =', 1, 1, name='ref-local')
+    t = rw.sub(t, r'(?<![\w.>:])create_coroutine\(\*m_thread_data\)', 'r1_create_coroutine(self->m_thread_data)', 0, None, name='callee (ref-arg)')
+    t = rw.sub(t, r'(?m)^(\s*)resume\(target\);', r'\1TD_RESUME(self, target);', 0, None, name='method (proved: switch.resume)')
+    t = rw.sub(t, r'(?<![\w.>:])recall_point\(\);', 'TD_RECALL_POINT(self);', 0, None, name='method (proved: switch.recall_point)')
+    t = rw.sub(t, r'(?<![\w.>])(m_thread_data|m_properties|m_suspend_point|m_execute_data_ext)\b', r'self->\1', 0, None, name='field')
+    t = rw.asserts(t, 0)
+    t = rw.std(t)
+    out.append(t)
+    s = slice_block(TK, r'void task_dispatcher::suspend\(suspend_callback_type suspend_callback, void\* user_callback\)')
+    note(s, 'task_dispatcher::suspend')
+    t = rw.sub(s.text, r'void task_dispatcher::suspend\(suspend_callback_type suspend_callback, void\* user_callback\)', 'void td_suspend(task_dispatcher* self, suspend_callback_type suspend_callback, void* user_callback)', 1, 1, name='sig')
+    t = rw.sub(t, r'(?<![\w.>:])get_suspend_point\(\)', 'td_get_suspend_point(self)', 0, None, name='method')
+    t = rw.sub(t, r'(?<![\w.>:])internal_suspend\(\);', 'TD_INTERNAL_SUSPEND(self);', 0, None, name='method')
+    t = rw.sub(t, r'post_resume_action::(\w+)', r'pra_\1', 0, None, name='enum-class')
+    t = rw.sub(t, r'(?<![\w.>])(m_thread_data|m_suspend_point|m_properties|m_execute_data_ext)\b', r'self->\1', 0, None, name='field')
+    t = rw.asserts(t, 0)
+    t = rw.std(t)
+    out.append(t)
+    s = slice_block(TK, r'void suspend\(suspend_callback_type suspend_callback, void\* user_callback\)')
+    note(s, 'r1::suspend')
+    t = rw.sub(s.text, r'void suspend\(suspend_callback_type suspend_callback, void\* user_callback\)', 'void r1_suspend(suspend_callback_type suspend_callback, void* user_callback)', 1, 1, name='sig')
+    t = rw.sub(t, r'thread_data& td = \*governor::get_thread_data\(\);', 'thread_data* td = STUB_get_thread_data();', 1, 1, name='ref-local')
+    t = rw.sub(t, r'\btd\.', 'td->', 0, None, name='ref-local')
+    t = rw.sub(t, r'\b((?:\w+->)+\w+)->suspend\(', r'TD_SUSPEND(\1, ', 0, None, name='method')
+    out.append(t)
+    s = slice_block(TK, r'suspend_point_type\* current_suspend_point\(\)')
+    note(s, 'r1::current_suspend_point')
+    t = rw.sub(s.text, r'suspend_point_type\* current_suspend_point\(\)', 'suspend_point_type* r1_current_suspend_point(void)', 1, 1, name='sig')
+    t = rw.sub(t, r'thread_data& td = \*governor::get_thread_data\(\);', 'thread_data* td = STUB_get_thread_data();', 1, 1, name='ref-local')
+    t = rw.sub(t, r'\btd\.', 'td->', 0, None, name='ref-local')
+    t = rw.sub(t, r'\b((?:\w+->)+\w+)->get_suspend_point\(\)', r'td_get_suspend_point(\1)', 0, None, name='method')
+    out.append(t)
+    # ---- POSIX create_coroutine (ucontext) and the coroutine entry function: the dispatcher address travels as two unsigned halves --------
+    s = slice_block(CO, r'inline void create_coroutine\(coroutine_type& c, std::size_t stack_size, void\* arg\)', nth=2)
+    if 'makecontext' not in s.text:
+        raise ExtractionBreak('the third create_coroutine of co_context.h is not the ucontext one any more')
+    note(s, 'create_coroutine (ucontext variant)')
+    t = rw.sub(s.text, r'inline void create_coroutine\(coroutine_type& c, std::size_t stack_size, void\* arg\)', 'void posix_create_coroutine(struct coroutine_type* c, size_t stack_size, void* arg)', 1, 1, name='sig')
+    t = rw.sub(t, r'\bc\.', 'c->', 1, name='ref-param')
+    t = rw.sub(t, r'governor::default_page_size\(\)', 'STUB_default_page_size()', 1, name='callee stub')
+    t = rw.asserts(t, 0)
+    t = rw.std(t)
+    t = rw.fcasts(t, ['uintptr_t', 'unsigned', 'uint64_t'], 0)
+    t = rw.sub(t, r'\(coroutine_func_t\)co_local_wait_for_all', '(coroutine_func_t)ENTRY_co_local_wait_for_all', 0, None, name='entry function name')
+    out.append(t)
+    s = slice_block(TDC, r'void co_local_wait_for_all\(unsigned hi, unsigned lo\) noexcept')
+    note(s, 'co_local_wait_for_all (coroutine entry function)')
+    t = s.text[s.text.index('{'):]
+    t = cxx2c.cpp_resolve(t, {'_WIN32': None}, 'co_local_wait_for_all')
+    t = 'void ENTRY_co_local_wait_for_all(unsigned hi, unsigned lo)\n' + t
+    t = rw.sub(t, r'task_dispatcher& task_disp = \*reinterpret_cast<task_dispatcher\*>\(addr\);', 'task_dispatcher* task_disp = reinterpret_cast<task_dispatcher*>(addr);', 1, 1, name='ref-local')
+    t = rw.sub(t, r'assert_pointers_valid\([^;]*\);', 'RG_NOP();', 0, None, name='debug check -> RG_NOP')
+    t = rw.sub(t, r'task_disp\.set_stealing_threshold\(task_disp\.m_thread_data->my_arena->calculate_stealing_threshold\(\)\);', 'STUB_set_stealing_threshold(task_disp);', 0, None, name='callee stub')
+    t = rw.sub(t, r'__TBB_ASSERT\(task_disp\.can_steal\(\), nullptr\);', 'RG_NOP();', 0, None, name='debug check -> RG_NOP')
+    t = rw.sub(t, r'task_disp\.co_local_wait_for_all\(\);', 'TD_CO_LOCAL_WAIT_FOR_ALL(task_disp);', 0, None, name='method (proved: switch.coroutine_prologue)')
+    t = rw.casts(t, 1)
+    t = rw.asserts(t, 0)
+    t = rw.std(t)
+    t = rw.fcasts(t, ['uintptr_t', 'unsigned', 'uint64_t'], 0)
+    out.append(t)
+    if not re.search(r'enum class post_resume_action \{\s*invalid,\s*register_waiter,\s*cleanup,\s*notify,\s*none\s*\}', load(SC)):
+        raise ExtractionBreak('post_resume_action enum changed')
+    common.write(ctx, 'suspend.inc', '\n'.join(out) + '\n')
+    fired['suspend_glue'] = rw.fired
+
+
+# ---------------------------------------------------------------------------------------------------------------------------------
+# COCACHE: arena_co_cache (arena.h), the LIFO ring of parked coroutines
+# ---------------------------------------------------------------------------------------------------------------------------------
+def extract_cocache(ctx, sliced, fired):
+    rw = Rewriter('co_cache')
+    W = r'class arena_co_cache \{'
+    out = []
+    MEM = ['my_co_scheduler_cache', 'my_head', 'my_max_index', 'my_co_cache_mutex']
+    METH = ['next_index', 'prev_index', 'internal_empty', 'internal_task_dispatcher_cleanup', 'pop']
+
+    def conv(name, sig, csig, loops=False):
+        s = slice_block(AH, sig, within=W)
+        sliced.append('%s:%d arena_co_cache::%s' % (AH, s.line, name))
+        t = rw.sub(s.text, sig, csig, 1, 1, name='sig')
+        t = rw.scoped_locks(t, r'tbb::spin_mutex::scoped_lock \w+\(([^)]*)\);', 0, None)
+        # `while (T* x = f())` -> declaration hoisted, condition kept
+        t = rw.sub(t, r'\b(while|if) \(task_dispatcher\* (\w+) = ', r'task_dispatcher* \2; \1 ((\2 = ', 0, None, name='declaration in condition -> hoisted')
+        if loops:
+            t = rw.sub(t, r'((?:while|if) \(\(to_cleanup = pop\(\))\)', r'\1))', 0, None, name='declaration in condition -> hoisted (closing parenthesis)')
+        t = rw.sub(t, r'to_cleanup->~task_dispatcher\(\);', 'STUB_dispatcher_dtor(to_cleanup);', 0, None, name='destructor call')
+        t = rw.sub(t, r'cache_aligned_deallocate\(', 'STUB_cache_aligned_deallocate(', 0, None, name='callee stub')
+        t = rw.sub(t, r'\(task_dispatcher\*\*\)cache_aligned_allocate\(', '(task_dispatcher**)STUB_cache_aligned_allocate(', 0, None, name='callee stub (alloc_nofail)')
+        t = rw.sub(t, r'std::memset\(', 'STUB_memset(', 0, None, name='callee stub')
+        t = rw.fields(t, MEM, 0)
+        t = rw.methods(t, METH, 'cc_', 0)
+        # element accesses -> accessor macros (the harness checks the lock, the bounds, and supplies the representation invariant at the index read)
+        t = rw.sub(t, r'self->my_co_scheduler_cache\[([^\]]*)\] = ([^;]*);', r'CACHE_WR(self, \1, \2);', 0, None, name='element store -> CACHE_WR')
+        t = rw.sub(t, r'self->my_co_scheduler_cache\[([^\]]*)\]', r'CACHE_RD(self, \1)', 0, None, name='element read -> CACHE_RD')
+        t = rw.sub(t, r'self->my_head = ([^;]*);', r'HEAD_WR(self, \1);', 0, None, name='head store -> HEAD_WR')
+        t = rw.sub(t, r'self->my_head\b', 'HEAD_RD(self)', 0, None, name='head read -> HEAD_RD')
+        t = rw.asserts(t, 0)
+        t = rw.std(t)
+        if loops:
+            t = cxx2c.tag_loops(t, 'cc_cleanup', rw, names=[(r'pop', 'drain')])
+            if 'LOOP_cc_cleanup_drain' not in t:      # the drain loop is gone (e.g. `while` -> `if`): the loop-free body is checked against the same postcondition
+                cxx2c.LOOP_DEFICIT['cc_cleanup'] = 1
+        return t
+    out.append(conv('next_index', r'unsigned next_index\(\)', 'unsigned cc_next_index(struct arena_co_cache* self)'))
+    out.append(conv('prev_index', r'unsigned prev_index\(\)', 'unsigned cc_prev_index(struct arena_co_cache* self)'))
+    out.append(conv('internal_empty', r'bool internal_empty\(\)', 'bool cc_internal_empty(struct arena_co_cache* self)'))
+    out.append(conv('internal_task_dispatcher_cleanup', r'void internal_task_dispatcher_cleanup\(task_dispatcher\* to_cleanup\)', 'void cc_internal_task_dispatcher_cleanup(struct arena_co_cache* self, task_dispatcher* to_cleanup)'))
+    out.append(conv('init', r'void init\(unsigned cache_capacity\)', 'void cc_init(struct arena_co_cache* self, unsigned cache_capacity)'))
+    out.append(conv('push', r'void push\(task_dispatcher\* s\)', 'void cc_push(struct arena_co_cache* self, task_dispatcher* s)'))
+    out.append('#ifndef CC_POP_BY_CONTRACT\n' + conv('pop', r'task_dispatcher\* pop\(\)', 'task_dispatcher* cc_pop(struct arena_co_cache* self)') + '\n#endif\n')
+    out.append(conv('cleanup', r'void cleanup\(\)', 'void cc_cleanup(struct arena_co_cache* self)', loops=True))
+    # who uses the cache (closed world): create_coroutine pops, the cleanup post-resume action pushes, arena construction/destruction init/cleanup
+    uses = []
+    for rel in ('src/tbb/task.cpp', 'src/tbb/arena.cpp', 'src/tbb/arena.h', 'src/tbb/task_dispatcher.h', 'src/tbb/task_dispatcher.cpp', 'src/tbb/thread_data.h', 'src/tbb/governor.cpp', 'src/tbb/waiters.h'):
+        for m in re.finditer(r'my_co_cache\.(\w+)\(', cxx2c.mask(load(rel))):
+            uses.append((rel, m.group(1)))
+    if sorted(uses) != sorted([('src/tbb/task.cpp', 'pop'), ('src/tbb/task.cpp', 'push'), ('src/tbb/arena.cpp', 'init'), ('src/tbb/arena.cpp', 'cleanup')]):
+        raise ExtractionBreak('closed world of arena_co_cache users changed: %s' % sorted(uses))
+    rw.fired['closed-world scan: my_co_cache users'] = len(uses)
+    common.write(ctx, 'cocache.inc', '\n'.join(out) + '\n')
+    fired['co_cache'] = rw.fired
+
+
+# ---------------------------------------------------------------------------------------------------------------------------------
+# RTASK: suspend_point_type::resume_task::execute, resume_node (the waiter node of a parked stack), get_self_recall_task, waiters
+# ---------------------------------------------------------------------------------------------------------------------------------
+def extract_rtask(ctx, sliced, fired):
+    rw = Rewriter('resume_task')
+    out = []
+
+    def note(s, what):
+        sliced.append('%s:%d %s' % (s.rel, s.line, what))
+    # ---- resume_node -----------------------------------------------------------------------------------------------------------
+    W = r'class resume_node : public wait_node<market_context> \{'
+    s = slice_block(TCM, r'resume_node\(market_context ctx, execution_data_ext& ed_ext, task_dispatcher& target\)', within=W, ctor=True)
+    note(s, 'resume_node::resume_node')
+    nblock = slice_block(TCM, W).text
+    order = ['base_type'] + declared_order(nblock, ['my_curr_dispatcher', 'my_target_dispatcher', 'my_suspend_point', 'my_notify_calls'], 'resume_node')
+    params, init, body = ctor_init_list(rw, s.text, order, 'resume_node')
+    dflt = nsdmi(rw, nblock, ['my_notify_calls'], name='resume_node')
+    t = 'void resume_node_ctor(struct resume_node* self, struct market_context ctx, struct execution_data_ext* ed_ext, task_dispatcher* target) {\n' + dflt + init + body + '}\n'
+    t = rw.sub(t, r'\bed_ext\.', 'ed_ext->', 0, None, name='ref-param')
+    t = rw.sub(t, r'&target\b', 'target', 0, None, name='ref-param')
+    t = rw.sub(t, r'(?<![\w.>])(my_curr_dispatcher|my_target_dispatcher|my_suspend_point)\b', r'self->\1', 0, None, name='field')
+    t = rw.sub(t, r'((?:\w+->)*\w+)->get_suspend_point\(\)', r'td_get_suspend_point(\1)', 0, None, name='method')
+    out.append(t)
+    for name, sig, csig in (('wait', r'void wait\(\) override', 'void resume_node_wait(struct resume_node* self)'),
+                            ('notify', r'void notify\(\) override', 'void resume_node_notify(struct resume_node* self)')):
+        s = slice_block(TCM, sig, within=W)
+        note(s, 'resume_node::' + name)
+        t = rw.sub(s.text, sig, csig, 1, 1, name='sig')
+        t = rw.sub(t, r'(?<![\w.>])(my_curr_dispatcher|my_target_dispatcher|my_suspend_point)\b', r'self->\1', 0, None, name='field')
+        t = rw.sub(t, r'((?:\w+->)*\w+)->resume\(\*((?:\w+->)*\w+)\);', r'TD_RESUME(\1, \2);', 0, None, name='method (proved: switch.resume)')
+        t = rw.sub(t, r'this->my_is_in_list\.load\(std::memory_order_relaxed\)', 'self->my_is_in_list', 0, None, name='assert-read')
+        t = rw.sub(t, r'base_type::reset\(\);', 'WAIT_NODE_RESET(self);', 0, None, name='base-class method')
+        t = rw.sub(t, r'spin_wait_until_eq\(this->my_notify_calls, (\w+)\);', r'SPIN_WAIT_UNTIL_EQ(self->my_notify_calls, \1);', 0, None, name='spin wait')
+        t = rw.sub(t, r'r1::resume\(', 'R1_RESUME(', 0, None, name='callee (proved: handshake.resumer)')
+        t = rw.atomics(t, ['my_notify_calls'], 0)
+        t = rw.sub(t, r'ATOMIC_(\w+)\(my_notify_calls', r'ATOMIC_\1(self->my_notify_calls', 0, None, name='field')
+        t = rw.asserts(t, 0)
+        t = rw.std(t)
+        out.append(t)
+    # ---- resume_task::execute ---------------------------------------------------------------------------------------------------------
+    s = slice_block(TDH, r'inline d1::task\* suspend_point_type::resume_task::execute\(d1::execution_data& ed\)')
+    note(s, 'suspend_point_type::resume_task::execute')
+    t = rw.sub(s.text, r'inline d1::task\* suspend_point_type::resume_task::execute\(d1::execution_data& ed\)', 'struct task* resume_task_execute(struct resume_task* self, struct execution_data_ext* ed)', 1, 1, name='sig')
+    t = rw.sub(t, r'execution_data_ext& ed_ext = static_cast<execution_data_ext&>\(ed\);', 'struct execution_data_ext* ed_ext = ed;', 1, 1, name='ref-local (downcast of the execution data)')
+    t = rw.sub(t, r'\bed_ext\.', 'ed_ext->', 1, name='ref-local')
+    # the waiter node lives on the stack that is being left: constructor at the declaration, destructor at every exit of its scope
+    t = rw.sub(t, r'thread_control_monitor::resume_context (\w+)\{\{std::uintptr_t\((.*?)\), (.*?)\}, (.*?), (.*?)\};', r'RESUME_CONTEXT \1(\1, \2, \3, \4, \5);', 0, None, name='waiter node declaration')
+    t = rw.sub(t, r'thread_control_monitor& wait_list = td->my_arena->get_waiting_threads_monitor\(\);', 'RG_NOP();', 0, None, name='local alias dropped')
+    # the predicate lambda of the monitor wait: sliced as text, evaluated by the stub of concurrent_monitor::wait
+    t = rw.sub(t, r'wait_list\.wait\(\[&\] \{ return (.*?); \}, (\w+)\)', r'MONITOR_WAIT(td, (\1), &\2)', 0, None, name='concurrent_monitor::wait(pred, node) -> stub with the predicate expression')
+    t = rw.scoped_locks(t, r'RESUME_CONTEXT \w+\(([^;]*)\);', 0, None, lock='RESUME_NODE_CTOR', unlock='RESUME_NODE_DTOR')
+    t = rw.sub(t, r'(\w+(?:->\w+)*)->continue_execution\(\)', r'WAIT_CTX_CONTINUE(\1)', 0, None, name='callee stub (wait_context::continue_execution: read only)')
+    t = rw.sub(t, r'((?:\w+->)*\w+)->set_post_resume_action\(task_dispatcher::post_resume_action::(\w+),\s*', r'THD_SET_POST_RESUME_ACTION(\1, pra_\2, ', 0, None, name='method (proved: switch.do_post_resume_action)')
+    t = rw.sub(t, r'((?:\w+->)*\w+)->clear_post_resume_action\(\);', r'THD_CLEAR_POST_RESUME_ACTION(\1);', 0, None, name='method (proved: switch.do_post_resume_action)')
+    t = rw.sub(t, r'r1::resume\(', 'R1_RESUME(', 0, None, name='callee (proved: handshake.resumer)')
+    t = rw.sub(t, r'(?<![\w.>])m_target\.', 'self->m_target->', 0, None, name='ref-member')
+    t = rw.sub(t, r'(\w+(?:->\w+)*)->get_suspend_point\(\)', r'td_get_suspend_point(\1)', 0, None, name='method (proved: suspend.get_suspend_point)')
+    t = rw.sub(t, r'(\w+(?:->\w+)*)->resume\(m_target\);', r'TD_RESUME(\1, self->m_target);', 0, None, name='method (proved: switch.resume)')
+    t = rw.sub(t, r'(?<![\w.>])m_target\b', 'self->m_target', 0, None, name='field')
+    t = rw.sub(t, r'self->self->', 'self->', 0, None, name='field (already qualified)')
+    t = rw.std(t)
+    out.append(t)
+    # ---- get_self_recall_task -------------------------------------------------------------------------------------------------------------
+    s = slice_block(TDH, r'inline d1::task\* get_self_recall_task\(arena_slot& slot\)')
+    note(s, 'get_self_recall_task')
+    t = cxx2c.cpp_resolve(s.text, MAC, 'get_self_recall_task')
+    t = rw.sub(t, r'inline d1::task\* get_self_recall_task\(arena_slot& slot\)', 'struct task* get_self_recall_task(arena_slot* slot)', 1, 1, name='sig')
+    t = rw.sub(t, r'suppress_unused_warning\(slot\);', 'RG_NOP();', 0, None, name='no-op')
+    t = rw.sub(t, r'd1::task\* t =', 'struct task* t =', 1, 1, name='type')
+    t = rw.sub(t, r'slot\.default_task_dispatcher\(\)\.', 'slot->my_default_task_dispatcher->', 0, None, name='accessor')
+    t = rw.sub(t, r'((?:\w+(?:->|\.))*m_is_owner_recalled)\.load\(std::memory_order_\w+\)', r'ATOMIC_LOAD(\1)', 0, None, name='atomic-load')
+    t = rw.sub(t, r't = &sp->m_resume_task;', 't = &sp->m_resume_task.base;', 0, None, name='upcast to the task base')
+    t = rw.sub(t, r'sp->m_resume_task\.m_target\.m_thread_data', 'sp->m_resume_task.m_target->m_thread_data', 0, None, name='ref-member')
+    t = rw.asserts(t, 0)
+    t = rw.std(t)
+    out.append(t)
+    # ---- waiters: continue_execution / postpone_execution ---------------------------------------------------------------------------------
+    for cls, cname in (('coroutine_waiter', 'cw'), ('external_waiter', 'ew')):
+        CW = r'class %s : public sleep_waiter \{' % cls
+        s = slice_block(WT, r'bool continue_execution\(arena_slot& slot, d1::task\*& t\) const', within=CW)
+        note(s, cls + '::continue_execution')
+        t = rw.sub(s.text, r'bool continue_execution\(arena_slot& slot, d1::task\*& t\) const', 'bool %s_continue_execution(struct waiter* self, arena_slot* slot, struct task** t)' % cname, 1, 1, name='sig')
+        t = rw.sub(t, r'(?<![\w*])t == nullptr', '*t == nullptr', 0, None, name='ref-param')
+        t = rw.sub(t, r'(?m)^(\s*)t = ', r'\1*t = ', 0, None, name='ref-param')
+        t = rw.sub(t, r'get_self_recall_task\(slot\)', 'get_self_recall_task(slot)', 0, None, name='callee')
+        t = rw.sub(t, r'my_wait_ctx\.continue_execution\(\)', 'WAIT_CTX_CONTINUE(self->my_wait_ctx)', 0, None, name='callee stub (wait_context::continue_execution: read only)')
+        t = rw.asserts(t, 0)
+        t = rw.std(t)
+        out.append(t)
+        s = slice_block(WT, r'static bool postpone_execution\(d1::task&\s*\w*\)', within=CW)
+        note(s, cls + '::postpone_execution')
+        t = rw.sub(s.text, r'static bool postpone_execution\(d1::task&\s*\w*\)', 'bool %s_postpone_execution(struct task* t)' % cname, 1, 1, name='sig')
+        t = rw.sub(t, r'task_accessor::is_resume_task\(t\)', 'TASK_IS_RESUME(t)', 0, None, name='accessor')
+        t = rw.std(t)
+        out.append(t)
+    common.write(ctx, 'rtask.inc', '\n'.join(out) + '\n')
+    fired['resume_task'] = rw.fired
+
+
 def build(ctx):
     sliced, fired = extract(ctx)
     extract_switch(ctx, sliced, fired)
+    extract_suspend(ctx, sliced, fired)
+    extract_cocache(ctx, sliced, fired)
+    extract_rtask(ctx, sliced, fired)
     C = os.path.join(HERE, 'c20.c')
     jobs = [
         Job('handshake.resumer', C, 'h_resumer', route='RG', target='r1::resume + suspend_point_type::try_notify_resume (the resumer side)', source=TK),
@@ -183,6 +627,31 @@ def build(ctx):
         Job('switch.coroutine_prologue', C, 'h_prologue', route='LC', loops=True, nloops=1, defines=['SWITCH'], target='task_dispatcher::co_local_wait_for_all (prologue and re-use loop of a coroutine)', source=TDC),
         Job('switch.resume', C, 'h_td_resume', route='LF', defines=['SWITCH'], target='task_dispatcher::resume(target) (the code on both sides of the stack switch)', source=TK),
         Job('switch.recall_point', C, 'h_recall_point', route='LF', defines=['SWITCH'], target='task_dispatcher::recall_point', source=TDH),
+    ]
+    C2 = os.path.join(HERE, 'c20_susp.c')
+    D = ['SUSPEND']
+    jobs += [
+        Job('suspend.entry', C2, 'h_entry', route='LF', defines=D, target='r1::suspend, r1::current_suspend_point', source=TK, timeout=200),
+        Job('suspend.td_suspend', C2, 'h_td_suspend', route='LF', defines=D, target='task_dispatcher::suspend (callback, then internal_suspend) + get_suspend_point', source=TK, timeout=200),
+        Job('suspend.get_suspend_point', C2, 'h_get_suspend_point', route='LF', defines=D, target='task_dispatcher::get_suspend_point + init_suspend_point + suspend_point_type / resume_task / co_context constructors and default member initialisers', source=TDC, timeout=200),
+        Job('suspend.create_coroutine', C2, 'h_create_coroutine', route='LF', defines=D, target='r1::create_coroutine + task_dispatcher constructor + init_suspend_point + constructors', source=TK, timeout=200),
+        Job('suspend.internal_suspend', C2, 'h_internal_suspend', route='LF', defines=D, target='task_dispatcher::internal_suspend (+ get_suspend_point, create_coroutine)', source=TK, timeout=200),
+        Job('suspend.sp_resume', C2, 'h_sp_resume', route='LF', defines=D, target='suspend_point_type::resume + co_context::resume', source=SC, timeout=200),
+        Job('suspend.attach_detach', C2, 'h_attach_detach', route='LF', defines=D, target='thread_data::detach_task_dispatcher / attach_task_dispatcher', source=TD, timeout=200),
+        Job('suspend.entry_roundtrip', C2, 'h_entry_roundtrip', route='LF', defines=D, target='create_coroutine (ucontext) + co_local_wait_for_all(hi, lo): dispatcher address round trip', source=CO, timeout=200),
+    ]
+    D = ['COCACHE']
+    jobs += [
+        Job('cocache.push', C2, 'h_cc_push', route='LF', defines=D, target='arena_co_cache::push (+ next_index, internal_task_dispatcher_cleanup), ring of any capacity <= 4096', source=AH, timeout=300),
+        Job('cocache.pop', C2, 'h_cc_pop', route='LF', defines=D, target='arena_co_cache::pop (+ prev_index, internal_empty), ring of any capacity <= 4096', source=AH, timeout=300),
+        Job('cocache.init', C2, 'h_cc_init', route='LF', defines=D, target='arena_co_cache::init', source=AH, timeout=200),
+        Job('cocache.cleanup', C2, 'h_cc_cleanup', route='LC', loops=True, nloops=1, defines=D + ['CC_POP_BY_CONTRACT'], target='arena_co_cache::cleanup (drain loop, any number of cached coroutines)', source=AH, timeout=300),
+    ]
+    D = ['RTASK']
+    jobs += [
+        Job('rtask.execute', C2, 'h_rtask_execute', route='LF', defines=D, target='suspend_point_type::resume_task::execute + resume_node constructor and wait()', source=TDH, timeout=200),
+        Job('rtask.notify', C2, 'h_rtask_notify', route='RG', defines=D + ['NOTIFY_JOB'], target='resume_node::notify (two notifiers, one resume)', source=TCM, timeout=200),
+        Job('rtask.self_recall', C2, 'h_self_recall', route='LF', defines=D, target='get_self_recall_task, coroutine_waiter / external_waiter ::continue_execution, ::postpone_execution', source=TDH, timeout=200),
     ]
     return {
         'jobs': jobs, 'sliced': sliced, 'fired': fired,
